@@ -71,6 +71,7 @@ class Summary:
         self.sites: List[Mutation] = []
         self.unknown_calls = 0
         self.calls = 0
+        self.callees = set()
 
     def key(self):
         return (frozenset(self.mut), self.ret, frozenset(self.origin.items()))
@@ -319,6 +320,7 @@ class Effects:
             sm.calls += 1
             out: Val = (frozenset(), frozenset())
             for t in repo:
+                sm.callees.add(t.qualname)
                 if isinstance(t, Class):
                     init = t.lookup("__init__")
                     # constructors adopt their arguments: the new object's contents alias them
